@@ -1,18 +1,27 @@
-(** M-STORE: the contract of the revision store the crash model relies on
-    (cmd/atlas/internal/migrate/migrate.go: EntRevisions).
+(** M-STORE: the storage layer between [Executor.Execute] and the database, as
+    the CLI runs it: [EntRevisions] of cmd/atlas/internal/migrate/migrate.go
+    ([ReadRevision], [ReadRevisions], [WriteRevision]) and the apply loop of
+    cmd/atlas/internal/cmdapi/migrate_oss.go ([migrateApplyRun]) with the
+    [tx] multiplexer of cmdapi/migrate.go (modes none / file).
 
-    - [WriteRevision] = `Create().SetRevision(rev).OnConflict(id).UpdateNewValues()`:
-      an upsert that overwrites EVERY field of the row ([tbl_put]); a failing
-      write leaves the table as it was;
-    - [ReadRevision] = `Revision.Get(id)`: the exact row, ErrRevisionNotExist when
-      there is none, or the error of the storage -- never "does not exist" for an
-      error;
-    - [Executor.Execute] (sql/migrate/migrate.go) reads the row first and returns
-      "read revision" on an error before anything is written or executed.
+    The store is a table of rows keyed by version ([ExecModel.tbl_get] /
+    [tbl_put]).  Every call that reaches the database pops one boolean from the
+    fault stream ([true] = the statement fails with an ordinary error):
 
-    No proofs here. *)
+    - [ReadRevision] = [Revision.Get]: the exact row, or [ErrRevisionNotExist]
+      when ent reports NotFound, or the error itself for any other failure;
+    - [ReadRevisions] = [Query().Order(ByID()).All]: all rows ordered by
+      version, or the error;
+    - [WriteRevision] = [Create().SetRevision(rev).OnConflict(version).
+      UpdateNewValues()]: an upsert that overwrites every modelled column
+      (applied, total, partial_hashes, error, type) of the row -- it is
+      [ExecModel.write] ([tbl_put]); a failing upsert leaves the row as it was.
+
+    [execute_rd] is [Executor.Execute] with the result of its [ReadRevision]
+    call made a parameter; [execute_rd f (tbl_get t v) t fs] is [execute f t fs]
+    (StoreProofs.execute_rd_get, by reflexivity).  This file contains no proofs. *)
 From Coq Require Import List NArith Bool Arith.
-From Atlas Require Import Base.Bytes Exec.ExecModel.
+From Atlas Require Import Base.Bytes Exec.ExecModel Exec.PendingModel Exec.RunModel.
 Import ListNotations.
 
 Section Store.
@@ -22,27 +31,181 @@ Variable HS : bytes -> hash.
 Notation rev := (rev hash).
 Notation event := (event hash).
 
-Inductive rd := RRow (r : rev) | RNotExist | RErr.
+(** ** EntRevisions *)
+Inductive read_result :=
+| RdRow (r : rev)     (* the stored row, all columns *)
+| RdNotExist          (* migrate.ErrRevisionNotExist *)
+| RdError.            (* any other error of the SELECT *)
 
-(** EntRevisions.ReadRevision; [fault] = the SELECT fails ("database is locked"). *)
-Definition read_revision (t : list rev) (v : bytes) (fault : bool) : rd :=
-  if fault then RErr
-  else match tbl_get t v with Some r => RRow r | None => RNotExist end.
+(** [EntRevisions.ReadRevision]:
+      rev, err := r.ec.Revision.Get(ctx, v)
+      if err != nil && !ent.IsNotFound(err) { return nil, err }
+      if ent.IsNotFound(err) { return nil, migrate.ErrRevisionNotExist }
+      return rev.AtlasRevision(), nil *)
+Definition read_revision (t : list rev) (fs : list bool) (v : bytes) : read_result * list bool :=
+  let '(fail, fs') := pop fs in
+  if fail then (RdError, fs')
+  else (match tbl_get t v with Some r => RdRow r | None => RdNotExist end, fs').
 
-(** EntRevisions.WriteRevision; [None] = the INSERT .. ON CONFLICT fails. *)
-Definition write_revision (t : list rev) (r : rev) (fault : bool) : option (list rev) :=
-  if fault then None else Some (tbl_put t r).
+(** [EntRevisions.ReadRevisions]: ordered by version. *)
+Definition read_revisions_f (t : list rev) (fs : list bool) : option (list rev) * list bool :=
+  let '(fail, fs') := pop fs in
+  if fail then (None, fs') else (Some (read_revisions hash t), fs').
 
-Inductive xoutcome :=
-| XRead                    (* "sql/migrate: read revision: ..." *)
-| XExec (o : outcome).
+(** ** [Executor.Execute] (sql/migrate/migrate.go) after its ReadRevision call.
+    [rd]: [Some r] = the revision read, [None] = ErrRevisionNotExist.
+    Same text as [ExecModel.execute], whose [r0] is [tbl_get t v]. *)
+Definition execute_rd (f : file) (rd : option rev) (t : list rev) (fs : list bool)
+  : outcome * list rev * list bool * list event :=
+  let stmts := f_stmts f in
+  let sm := sums hash HS stmts in
+  let v := f_version f in
+  let r0 := match rd with Some r => r | None => new_rev v (length stmts) end in
+  let '(ok, t1, fs1, e1) := write t fs r0 in
+  if negb ok then (OWriteErr, t1, fs1, [e1]) else
+  match (if 0 <? r_applied r0 then check_loop hash hash_eqb (r_applied r0) 0 sm (r_hashes r0) else Some None) with
+  | None => (OPanic, t1, fs1, [e1])
+  | Some (Some i) =>
+      let '(_, t2, fs2, e2) := write t1 fs1 r0 in
+      (OHistory (S i), t2, fs2, [e1; e2])
+  | Some None =>
+      let r1 := set_total r0 (length stmts) in
+      if length stmts <? r_applied r1 then (OPanic, t1, fs1, [e1]) else
+      let '(o, r2, t2, fs2, es) :=
+        run_stmts hash v (skipn (r_applied r1) stmts) (skipn (r_applied r1) sm) r1 t1 fs1 in
+      match o with
+      | OWriteErr | OPanic | OHistory _ => (o, t2, fs2, e1 :: es)
+      | OStmtErr =>
+          let '(_, t3, fs3, e3) := write t2 fs2 r2 in
+          (OStmtErr, t3, fs3, e1 :: es ++ [e3])
+      | ODone =>
+          let r3 := set_hashes r2 [] in
+          let '(ok3, t3, fs3, e3) := write t2 fs2 r3 in
+          ((if ok3 then ODone else OWriteErr), t3, fs3, e1 :: es ++ [e3])
+      end
+  end.
 
-(** Executor.Execute over the store: the read of the file's row comes first. *)
-Definition execute_st (f : file) (t : list rev) (rfault : bool) (fs : list bool)
-  : xoutcome * list rev * list bool * list event :=
-  match read_revision t (f_version f) rfault with
-  | RErr => (XRead, t, fs, [])
-  | _ => let '(o, t', fs', es) := execute hash hash_eqb HS f t fs in (XExec o, t', fs', es)
+(** Outcome of [Execute] over the store. *)
+Inductive st_outcome :=
+| SReadErr                 (* "sql/migrate: read revision: ..." -- returned before anything else happens *)
+| SExec (o : outcome).
+
+(** [Executor.Execute] over [EntRevisions]:
+      r, err := e.rrw.ReadRevision(ctx, version)
+      if err != nil && !errors.Is(err, ErrRevisionNotExist) { return fmt.Errorf("sql/migrate: read revision: %w", err) }
+      if errors.Is(err, ErrRevisionNotExist) { r = &Revision{...} } ... *)
+Definition execute_st (f : file) (t : list rev) (fs : list bool)
+  : st_outcome * list rev * list bool * list event :=
+  let '(rr, fs0) := read_revision t fs (f_version f) in
+  match rr with
+  | RdError => (SReadErr, t, fs0, [])
+  | RdRow r => let '(o, t', fs', es) := execute_rd f (Some r) t fs0 in (SExec o, t', fs', es)
+  | RdNotExist => let '(o, t', fs', es) := execute_rd f None t fs0 in (SExec o, t', fs', es)
+  end.
+
+(** ** the loop [for _, f := range pending] of migrateApplyRun.
+    [txfile = false]: --tx-mode none, every statement and revision write is final.
+    [txfile = true]: --tx-mode file: [driverFor] opens a transaction per file,
+    [mayRollback] rolls it back when Execute returns an error (the table is
+    what it was before the file, the statements of that file are undone),
+    [mayCommit] commits it otherwise.
+    Result: outcome, table, faults left, all events (also those rolled back),
+    and the committed journal. *)
+Fixpoint apply_files (txfile : bool) (files : list file) (t : list rev) (fs : list bool)
+  : st_outcome * list rev * list bool * list event * list (bytes * bytes) :=
+  match files with
+  | [] => (SExec ODone, t, fs, [], [])
+  | f :: rest =>
+      let '(o, t1, fs1, es) := execute_st f t fs in
+      match o with
+      | SExec ODone =>
+          let '(o', t2, fs2, es', j') := apply_files txfile rest t1 fs1 in
+          (o', t2, fs2, es ++ es', journal es ++ j')
+      | _ => if txfile then (o, t, fs1, es, []) else (o, t1, fs1, es, journal es)
+      end
+  end.
+
+(** Result of one `atlas migrate apply`. *)
+Inductive cli_outcome :=
+| CReadErr                  (* one of the two ReadRevisions calls failed *)
+| CPend (p : presult)       (* Pending's error or ErrNoPendingFiles ("No migration files to execute", exit 0) *)
+| CRun (o : st_outcome).
+
+(** [migrateApplyRun] from [ex.Pending] on (the table exists, [Migrate] has run):
+      pending, err := ex.Pending(ctx)            -- ReadRevisions (1)
+      if err != nil && !errors.Is(err, ErrNoPendingFiles) { return err }
+      applied, err := rrw.ReadRevisions(ctx)     -- ReadRevisions (2)
+      if err != nil { return err }
+      if noPending { ...; return mr.Done }
+      pending = pending[:count]; for _, f := range pending { ... }
+    No baseline in this model ([c_baseline c = None] is what the harness uses);
+    a baseline write requested by [pending] is performed like [execute_n] does. *)
+Definition cli_apply (txfile : bool) (c : cfg) (n : nat) (all : list file) (t : list rev) (fs : list bool)
+  : cli_outcome * list rev * list bool * list event * list (bytes * bytes) :=
+  let '(r1, fs1) := read_revisions_f t fs in
+  match r1 with
+  | None => (CReadErr, t, fs1, [], [])
+  | Some revs =>
+      let '(p, w) := pending c all revs in
+      let '(wok, t1, fs2, ev1) :=
+        match w with
+        | None => (true, t, fs1, [])
+        | Some r => let '(ok, t', fs', e) := write t fs1 r in (ok, t', fs', [e])
+        end in
+      if negb wok then (CPend PWriteErr, t1, fs2, ev1, []) else
+      match p with
+      | PFiles files =>
+          let '(r2, fs3) := read_revisions_f t1 fs2 in
+          match r2 with
+          | None => (CReadErr, t1, fs3, ev1, [])
+          | Some _ =>
+              let chosen := if 0 <? n then firstn n files else files in
+              let '(o, t2, fs4, es, j) := apply_files txfile chosen t1 fs3 in
+              (CRun o, t2, fs4, ev1 ++ es, j)
+          end
+      | PNoPending =>
+          let '(r2, fs3) := read_revisions_f t1 fs2 in
+          match r2 with
+          | None => (CReadErr, t1, fs3, ev1, [])
+          | Some _ => (CPend PNoPending, t1, fs3, ev1, [])
+          end
+      | _ => (CPend p, t1, fs2, ev1, [])
+      end
+  end.
+
+(** A history of `migrate apply --allow-dirty [--exec-order o]` runs; the directory may change between runs. *)
+Record cli_run := mkCliRun { cr_txfile : bool; cr_order : order; cr_dir : list file; cr_faults : list bool }.
+
+Fixpoint cli_history (rs : list cli_run) (t : list rev)
+  : list (cli_outcome * list rev * list (bytes * bytes)) :=
+  match rs with
+  | [] => []
+  | r :: rs' =>
+      let '(o, t', _, _, j) :=
+        cli_apply (cr_txfile r) (mkCfg (cr_order r) None true true) 0 (cr_dir r) t (cr_faults r) in
+      (o, t', j) :: cli_history rs' t'
+  end.
+
+(** ** A store that breaks the contract (used only by the [_refuted] witness of
+    Props_C12, which shows that the guarantee depends on this clause).
+    [read_revision_lax]: every failure of the lookup is reported as
+    ErrRevisionNotExist. *)
+Definition read_revision_lax (t : list rev) (fs : list bool) (v : bytes) : read_result * list bool :=
+  let '(fail, fs') := pop fs in
+  if fail then (RdNotExist, fs')
+  else (match tbl_get t v with Some r => RdRow r | None => RdNotExist end, fs').
+
+Definition execute_st_lax (f : file) (t : list rev) (fs : list bool)
+  : st_outcome * list rev * list bool * list event :=
+  let '(rr, fs0) := read_revision_lax t fs (f_version f) in
+  match rr with
+  | RdError => (SReadErr, t, fs0, [])
+  | RdRow r => let '(o, t', fs', es) := execute_rd f (Some r) t fs0 in (SExec o, t', fs', es)
+  | RdNotExist => let '(o, t', fs', es) := execute_rd f None t fs0 in (SExec o, t', fs', es)
   end.
 
 End Store.
+
+Arguments RdRow {hash}.
+Arguments RdNotExist {hash}.
+Arguments RdError {hash}.
